@@ -730,6 +730,10 @@ func partB(run *vh.Run) {
 		if i%15 == 11 {
 			h.prefix, h.class = "v", "svc-history-other-prefix"
 		}
+		mismatch := i%10 == 3 && !h.inconsistent
+		if mismatch { // health and catalog disagree about which instances exist
+			h.class = "svc-history-membership-mismatch"
+		}
 		insts := genInstances(r, 1+r.Intn(3), 2+r.Intn(3), spaced)
 		st := regState{insts: insts, checks: genChecks(r, insts, i%5 == 0)}
 		h.states = append(h.states, st)
@@ -853,8 +857,23 @@ func partB(run *vh.Run) {
 	// the catalogs are generated up front (the PRNG is not goroutine safe)
 	for hi := range hists {
 		h := &hists[hi]
-		for _, st := range h.states {
-			results[hi].cats = append(results[hi].cats, catalogOf(st.insts, r, h.inconsistent))
+		for k, st := range h.states {
+			insts := st.insts
+			if h.class == "svc-history-membership-mismatch" && len(insts) > 1 {
+				if k%2 == 0 { // an instance the health endpoint reports is missing from the catalog
+					insts = append([]inst{}, insts[1:]...)
+				} else { // the catalog still lists an instance whose checks are gone
+					gone := insts[len(insts)-1]
+					var keep []*api.HealthCheck
+					for _, c := range st.checks {
+						if !(c.Node == gone.node && c.ServiceID == gone.sid) {
+							keep = append(keep, c)
+						}
+					}
+					h.states[k].checks = keep
+				}
+			}
+			results[hi].cats = append(results[hi].cats, catalogOf(insts, r, h.inconsistent))
 		}
 	}
 	for hi := range hists {
@@ -925,9 +944,9 @@ func partB(run *vh.Run) {
 					select { // the retry after recovery (the loop sleeps 1 s between attempts)
 					case t := <-ch:
 						res.texts, res.stateOf = append(res.texts, t), append(res.stateOf, k)
-					case <-time.After(4 * time.Second):
+					case <-time.After(15 * time.Second):
 						if !res.failPushed[k] {
-							res.err = fmt.Sprintf("no config pushed for snapshot %d within 4 s after the failure was lifted", k)
+							res.err = fmt.Sprintf("no config pushed for snapshot %d within 15 s after the failure was lifted", k)
 							return
 						}
 					}
@@ -1044,7 +1063,7 @@ func hostpathGo(prefix string) (string, string) {
 // every path and lower-cased host - of the CANDIDATE commands, dropped or not) and returns a
 // function that emits the case for an observed table.
 func e2eCase(run *vh.Run, prefix string, status []string, strict bool, checks []*api.HealthCheck,
-	cat []*api.CatalogService, text string, human []string) func(class string, dump [][4]string, accepted bool) {
+	cat []*api.CatalogService, text string, human []string, manual ...string) func(class string, dump [][4]string, accepted bool, prev ...[][4]string) {
 	urls := map[string]string{}
 	var addURL func(d string)
 	addURL = func(d string) {
@@ -1116,13 +1135,48 @@ func e2eCase(run *vh.Run, prefix string, status []string, strict bool, checks []
 	}
 	sort.Strings(bl)
 	envT := "(Some [(" + vh.HxS("DC") + ", " + vh.HxS("dc1") + ")])"
-	return func(class string, dump [][4]string, accepted bool) {
+	for _, m := range manual { // the operator's text: destinations and sources of its commands
+		for _, line := range strings.Split(m, "\n") {
+			fs := strings.Fields(line)
+			for _, f := range fs {
+				if strings.Contains(f, "://") {
+					addURL(f)
+				}
+			}
+			if len(fs) >= 4 && fs[0] == "route" {
+				h, p := hostpathGo(fs[3])
+				addGlob(p)
+				addGlob(strings.ToLower(h))
+			}
+		}
+	}
+	uk, ul, bl = nil, nil, nil
+	for k := range urls {
+		uk = append(uk, k)
+	}
+	sort.Strings(uk)
+	ul = make([]string, len(uk))
+	for i, k := range uk {
+		ul[i] = vh.Pair(vh.HxS(k), urls[k])
+	}
+	for k := range bad {
+		bl = append(bl, k)
+	}
+	sort.Strings(bl)
+	return func(class string, dump [][4]string, accepted bool, prev ...[][4]string) {
+		if len(manual) > 0 { // through the real watchBackend with the operator's text on top
+			run.Add(class, vh.App("CE2EM", envT, vh.HxS(prefix), vh.List(ul), strs(bl), strs(status), vh.Bool(strict),
+				coqChecks(checks), vh.List(items), vh.HxS(manual[0]), coqTbl(prev[0]), coqTbl(dump)),
+				map[string]interface{}{"status": status, "strict": strict, "checks": humanChecks(checks), "catalog": human,
+					"pushed": strings.Split(text, "\n"), "manual": strings.Split(manual[0], "\n"), "previous_table": prev[0], "table": dump})
+			return
+		}
 		tbl := vh.None
 		if accepted {
 			tbl = vh.Some(coqTbl(dump))
 		}
 		run.Add(class, vh.App("CE2E", envT, vh.HxS(prefix), vh.List(ul), strs(bl), strs(status), vh.Bool(strict),
-			coqChecks(checks), vh.List(items), vh.HxS(text), tbl),
+			coqChecks(checks), vh.List(items), vh.HxS(text), tbl, vh.Bool(len(prev) == 0)),
 			map[string]interface{}{"status": status, "strict": strict, "checks": humanChecks(checks), "catalog": human,
 				"pushed": strings.Split(text, "\n"), "table": dump, "accepted": accepted, "bad_globs": bl})
 	}
@@ -1139,7 +1193,7 @@ func emitE2E(run *vh.Run, class, prefix string, status []string, strict bool, ch
 	}
 	var dump [][4]string
 	if err == nil {
-		dump = dumpTable(t)
+		dump = dumpTableTags(t)
 	}
 	emit("e2e-"+class, dump, err == nil)
 }
@@ -1150,10 +1204,154 @@ func emitE2E(run *vh.Run, class, prefix string, status []string, strict bool, ch
 type installedJob struct {
 	class string
 	texts []string
-	emit  []func(class string, dump [][4]string, accepted bool)
+	man   []bool // delivered on the manual channel (nil: all on the service channel)
+	emit  []func(class string, dump [][4]string, accepted bool, prev ...[][4]string)
 }
 
 var installedJobs []installedJob
+
+// ---------- M: service routes with the operator's KV overrides on top ----------
+// The real backend's two watchers (WatchServices, WatchManual) against the fake Consul; the
+// driver alternates registry changes and KV edits; every pushed text is then delivered, on its
+// channel and in that order, to the real watchBackend, and the installed table after each
+// delivery is compared with the composed model (service table, then the manual commands
+// applied in order) and with the spec: no target but the healthy instances' and the manual adds'.
+var manualPool = []string{
+	"route add man /m http://9.9.9.9:99/", "route del svc-b", "route del svc-a /foo", "route del svc-a /foo http://10.0.0.1:8001/",
+	"route weight svc-a /foo weight 0.3", "route add man x.com/bar http://9.9.9.8:98/ tags \"m\"\nroute del svc-b x.com/bar", "",
+	"route weight svc-zzz /nowhere weight 0.5", "rout del x", "route add man /foo http://9.9.9.7:97/\nroute weight man /foo weight 0.5",
+	"route del svc-a\nroute add svc-a /foo http://8.8.8.8:88/",
+}
+
+func partM(run *vh.Run) {
+	r := run.Rng
+	nh := run.Scale(8, 100)
+	type ev struct {
+		man   bool
+		text  string
+		state int
+		kv    string
+	}
+	type mh struct {
+		strict bool
+		states []regState
+		cats   [][]*api.CatalogService
+		plan   []int // >= 0: publish that state; -1: edit the KV value
+		kvs    []string
+		evs    []ev
+		err    string
+	}
+	hs := make([]mh, nh)
+	g1 := inst{node: "n1", sid: "s1", name: "svc-a", tags: []string{"urlprefix-/foo", "v1"}, addr: "10.0.0.1", port: 8001}
+	g2 := inst{node: "n2", sid: "s2", name: "svc-b", tags: []string{"urlprefix-x.com/bar"}, addr: "10.0.0.2", port: 8002}
+	g3 := inst{node: "n3", sid: "s3", name: "svc-a", tags: []string{"urlprefix-/foo", "urlprefix-/three"}, addr: "10.0.0.3", port: 8003}
+	okc := func(in inst, st string) *api.HealthCheck { return svcCheck(in, "service:"+in.sid, st) }
+	sts := []string{"passing", "passing", "critical"}
+	for hi := range hs {
+		h := &hs[hi]
+		h.strict = hi%2 == 1
+		for k := 0; k < 4; k++ {
+			a, b, c := "passing", "passing", "passing"
+			if k > 0 {
+				a, b, c = sts[r.Intn(3)], sts[r.Intn(3)], sts[r.Intn(3)]
+			}
+			st := regState{[]inst{g1, g2, g3}, []*api.HealthCheck{okc(g1, a), okc(g2, b), okc(g3, c)}}
+			h.states = append(h.states, st)
+			h.cats = append(h.cats, catalogOf(st.insts, r, false))
+		}
+		next := 1
+		for len(h.plan) < 7 {
+			if next < len(h.states) && r.Intn(2) == 0 {
+				h.plan = append(h.plan, next)
+				next++
+			} else {
+				h.plan = append(h.plan, -1)
+				h.kvs = append(h.kvs, manualPool[r.Intn(len(manualPool))])
+			}
+		}
+	}
+	var wg sync.WaitGroup
+	for hi := range hs {
+		wg.Add(1)
+		go func(h *mh) {
+			defer wg.Done()
+			f := newFake()
+			f.set(h.states[0].checks, h.cats[0])
+			required := "one"
+			if h.strict {
+				required = "all"
+			}
+			cfg := &config.Consul{Addr: strings.TrimPrefix(f.srv.URL, "http://"), Scheme: "http", TagPrefix: tagPrefix,
+				ServiceStatus: []string{"passing"}, ChecksRequired: required, KVPath: "/fabio/config"}
+			be, err := consul.NewBackend(cfg)
+			if err != nil {
+				h.err = "NewBackend: " + err.Error()
+				return
+			}
+			chS, chM := be.WatchServices(), be.WatchManual()
+			cur, kv := 0, ""
+			recv := func(ch chan string, man bool) bool {
+				select {
+				case t := <-ch:
+					if man {
+						kv = t
+					}
+					h.evs = append(h.evs, ev{man: man, text: t, state: cur, kv: kv})
+					return true
+				case <-time.After(20 * time.Second):
+					h.err = "a watcher of the consul backend pushed nothing within 20 s"
+					return false
+				}
+			}
+			if !recv(chS, false) || !recv(chM, true) {
+				return
+			}
+			ki := 0
+			for _, p := range h.plan {
+				if p >= 0 {
+					cur = p
+					f.set(h.states[p].checks, h.cats[p])
+					if !recv(chS, false) {
+						return
+					}
+				} else {
+					var pairs api.KVPairs
+					if v := h.kvs[ki]; v != "" {
+						pairs = api.KVPairs{&api.KVPair{Key: "fabio/config", Value: []byte(v)}}
+					}
+					ki++
+					f.setKV(pairs)
+					if !recv(chM, true) {
+						return
+					}
+				}
+			}
+		}(&hs[hi])
+	}
+	wg.Wait()
+	for _, h := range hs {
+		if h.err != "" {
+			run.Violation(run.NextID(), "consul backend against the fake Consul: "+h.err, nil)
+			continue
+		}
+		job := installedJob{class: "installed-svc-with-manual"}
+		for _, e := range h.evs {
+			st := h.states[e.state]
+			_, human := coqCatalog(h.cats[e.state], tagPrefix)
+			// the service text current at this point is the last one delivered on the service channel
+			job.texts = append(job.texts, e.text)
+			job.man = append(job.man, e.man)
+			svcText := ""
+			for _, x := range h.evs {
+				if !x.man && x.state == e.state {
+					svcText = x.text
+				}
+			}
+			job.emit = append(job.emit, e2eCase(run, tagPrefix, []string{"passing"}, h.strict, st.checks, h.cats[e.state], svcText, human, e.kv))
+		}
+		installedJobs = append(installedJobs, job)
+	}
+}
 
 // ---------- C: watchBackend ----------
 
@@ -1181,6 +1379,32 @@ func dumpTable(t route.Table) [][4]string {
 					u = tg.URL.String()
 				}
 				out = append(out, [4]string{rt.Host, rt.Path, tg.Service, u})
+			}
+		}
+	}
+	sort.Slice(out, func(i, j int) bool {
+		for k := 0; k < 4; k++ {
+			if out[i][k] != out[j][k] {
+				return out[i][k] < out[j][k]
+			}
+		}
+		return false
+	})
+	return out
+}
+
+// dumpTableTags is dumpTable with the target's tags in the destination component (URL, NUL, the
+// tags joined by commas), see Check/C01.v url_tags
+func dumpTableTags(t route.Table) [][4]string {
+	out := [][4]string{}
+	for _, routes := range t {
+		for _, rt := range routes {
+			for _, tg := range rt.Targets {
+				u := ""
+				if tg.URL != nil {
+					u = tg.URL.String()
+				}
+				out = append(out, [4]string{rt.Host, rt.Path, tg.Service, u + "\x00" + strings.Join(tg.Tags, ",")})
 			}
 		}
 	}
@@ -1304,8 +1528,9 @@ func partC(run *vh.Run) {
 	nScripts := len(seqs)
 	for _, job := range installedJobs {
 		var sq wSeq
-		for _, t := range job.texts {
-			sq.Events = append(sq.Events, wEvent{Man: false, Text: t, Obs: false}, wEvent{Man: false, Text: t, Obs: true})
+		for i, t := range job.texts {
+			man := job.man != nil && job.man[i]
+			sq.Events = append(sq.Events, wEvent{Man: man, Text: t, Obs: false}, wEvent{Man: man, Text: t, Obs: true})
 		}
 		seqs = append(seqs, sq)
 	}
@@ -1362,8 +1587,10 @@ func partC(run *vh.Run) {
 			run.Violation(run.NextID(), "watchBackend stopped accepting the configs pushed by the consul backend", job.texts)
 			continue
 		}
+		prev := [][4]string{}
 		for k := range job.texts {
-			job.emit[k](job.class, o.Tables[k], true)
+			job.emit[k](job.class, o.Tables[k], true, prev)
+			prev = o.Tables[k]
 		}
 	}
 	for si, sc := range scripts {
@@ -1496,6 +1723,7 @@ func main() {
 	run := vh.Start("C01")
 	partA(run)
 	partB(run)
+	partM(run)
 	partC(run)
 	partD(run)
 	run.Finish(preamble, run.Scale(110, 1800))
